@@ -22,7 +22,7 @@ RV = ("server::conn::auto::ReadVersion", "Future", "poll")
 
 
 def _rv(facts):
-    return facts.unit(facts.method(*RV))
+    return facts.unit(facts.method(*RV), expand=True)
 
 
 def _epoch(f, site, read_bb):
